@@ -549,7 +549,14 @@ def reps():
         ("namedtuple", NT, "HStructured", 17), ("typeddict", TD, "HStructured", 17),
     ]
     out = [(n, T, h, [(h, i, T)]) for n, T, h, i in simple]
+    # bare (unsubscripted) collection targets: every one of them is served by a Cast routine (load first);
+    # bytearray / memoryview are registered instances of several of these ABCs, str / bytes of others
+    for n, T in BARE_CAST.items():
+        out.append(("bare:" + n, T, "HCast", [("HCast", 12, T)], "light"))
+    for n, T in BARE_NOOP.items():
+        out.append(("bare:" + n, T, "HNoOp", [("HNoOp", 1, T)], "light"))
     # Enum: the remainder is the enum's own lookup by value (an interpreter primitive), asked directly
+    out = [tuple(r) for r in out]
     out.append(("enum", Color, "HEnum", [("HEnum", 21, Color)]))
     out.append(("strenum", SE, "HEnum", [("HEnum", 21, SE)]))
     lit_term = None   # filled by the emitter (needs interning)
@@ -562,6 +569,19 @@ def reps():
                 [("HSubIterable", 14, list[int]), ("HDate", 6, datetime.date), ("HString", 4, str)]))
     return out
 
+
+BARE_CAST = {
+    "typing.Sequence": typing.Sequence, "typing.MutableSequence": typing.MutableSequence, "typing.Collection": typing.Collection,
+    "typing.Iterable": typing.Iterable, "typing.Reversible": typing.Reversible, "typing.Mapping": typing.Mapping,
+    "typing.MutableMapping": typing.MutableMapping, "typing.AbstractSet": typing.AbstractSet, "typing.MutableSet": typing.MutableSet,
+    "typing.Hashable": typing.Hashable, "typing.List": typing.List, "typing.Dict": typing.Dict, "typing.Tuple": typing.Tuple,
+    "typing.FrozenSet": typing.FrozenSet, "typing.Deque": typing.Deque, "typing.OrderedDict": typing.OrderedDict,
+    "abc.Sequence": cabc.Sequence, "abc.MutableSequence": cabc.MutableSequence, "abc.Collection": cabc.Collection,
+    "abc.Iterable": cabc.Iterable, "abc.Reversible": cabc.Reversible, "abc.Mapping": cabc.Mapping,
+    "abc.MutableMapping": cabc.MutableMapping, "abc.Set": cabc.Set, "abc.MutableSet": cabc.MutableSet,
+    "tuple": tuple, "set": set, "frozenset": frozenset, "deque": collections.deque, "OrderedDict": collections.OrderedDict,
+}
+BARE_NOOP = {"object": object, "typing.Iterator": typing.Iterator, "abc.Iterator": cabc.Iterator}
 
 DECODE_FIRST = {"HNoneType", "HString", "HNumber", "HDate", "HDateTime", "HTime", "HTimeDelta", "HPattern", "HPath"}
 LOAD_FIRST = {"HUUID", "HCast", "HSubMapping", "HSubIterable", "HSubIterator", "HFixedTuple", "HStructured"}
@@ -662,8 +682,9 @@ def correspond_routines(run: lib.Run, inputs, dist):
 
     R = reps()
     wire = [[1, 2], [], {"a": 1}, {"a": "1", "b": "x"}, [1, "2"], {"a": 1, "b": 2, "c": 3}, [[1, 2], [3]], ["a", "b"], 1, None, 1.5, True]
-    for name, T, h, restspec in R:
-        for inp in inputs:
+    light_inputs = [i for k, i in enumerate(inputs) if k < 45 or k % 6 == 0]
+    for name, T, h, restspec, *mode in R:
+        for inp in (light_inputs if mode else inputs):
             if inp[1] in DEEP or len(inp[1]) > 300:
                 continue
             pr = Prims(inp[1])
@@ -730,6 +751,13 @@ class Outer:
     tag: str = ""
 
 
+@dataclasses.dataclass
+class Box:
+    items: list
+    meta: dict = dataclasses.field(default_factory=dict)
+    pair: tuple = ()
+
+
 UserId = typing.NewType("UserId", int)
 
 
@@ -757,7 +785,12 @@ def type_specs():
         "Point": Point, "NT": NT, "TD": TD, "Inner": Inner, "Outer": Outer,
         "UserId": UserId, "list[UserId]": list[UserId], "Alias": compat.TypeAliasType("Alias", list[int]),
         "Final[int]": typing.Final[int], "list": list, "dict": dict, "Iterator[int]": typing.Iterator[int],
+        "tuple[list,list]": tuple[list, list], "list[list]": list[list], "list[dict]": list[dict], "dict[str,list]": dict[str, list],
+        "list[tuple]": list[tuple], "tuple[list,...]": tuple[list, ...], "Box": Box, "Optional[list]": typing.Optional[list],
+        "list|str": typing.Union[list, str],
     }
+    for n, T in BARE_CAST.items():
+        specs["bare:" + n] = T
     return specs
 
 
@@ -891,6 +924,8 @@ WIRE = {
     "seq_opt_int": [[1, None, 2]],
     "any_list": [[1, "a", None, True, 1.5, [2], {"k": "v"}]],
     "any_dict": [{"a": [1, {"b": None}], "c": True}],
+    "pair_lists": [[[1], [2]], [[], ["a", {"k": 1}]]],
+    "box": [{"items": [1, [2]], "meta": {"k": [3]}, "pair": [[4], 5]}, {"items": []}],
 }
 WIRE_FOR = {
     "list[int]": "seq_int", "set[int]": "seq_int", "deque[int]": "seq_int", "tuple[int,...]": "seq_int", "Sequence[int]": "seq_int",
@@ -902,7 +937,155 @@ WIRE_FOR = {
     "list[list[int]]": "seq_seq_int", "dict[str,list[int]]": "map_str_seq_int", "list[dict[str,int]]": "seq_map_str_int",
     "list[Inner]": "seq_inner", "dict[str,Inner]": "map_str_inner", "list[Optional[int]]": "seq_opt_int",
     "Point": "point", "NT": "point", "TD": "point", "Inner": "inner", "Outer": "outer", "list": "any_list", "dict": "any_dict",
+    "tuple[list,list]": "pair_lists", "list[list]": "seq_seq_int", "list[dict]": "seq_map_str_int", "dict[str,list]": "map_str_seq_int",
+    "tuple[list,...]": "seq_seq_int", "Box": "box",
+    "bare:typing.Sequence": "any_list", "bare:typing.MutableSequence": "any_list", "bare:typing.Collection": "any_list",
+    "bare:typing.Iterable": "any_list", "bare:typing.Reversible": "any_list", "bare:typing.List": "any_list",
+    "bare:typing.Tuple": "any_list", "bare:typing.Deque": "any_list", "bare:abc.Sequence": "any_list",
+    "bare:abc.MutableSequence": "any_list", "bare:abc.Collection": "any_list", "bare:abc.Iterable": "any_list", "bare:tuple": "any_list",
+    "bare:deque": "any_list", "bare:typing.Mapping": "any_dict", "bare:typing.MutableMapping": "any_dict", "bare:typing.Dict": "any_dict",
+    "bare:typing.OrderedDict": "any_dict", "bare:abc.Mapping": "any_dict", "bare:abc.MutableMapping": "any_dict",
+    "bare:OrderedDict": "any_dict", "bare:typing.AbstractSet": "seq_int", "bare:typing.MutableSet": "seq_int",
+    "bare:typing.FrozenSet": "seq_str", "bare:abc.Set": "seq_int", "bare:abc.MutableSet": "seq_int", "bare:set": "seq_int",
+    "bare:frozenset": "seq_str",
 }
+
+
+# ---- carriers after history: a caller edits the value it was given; the same text read again, in any carrier,
+#      must still mean what a cold read says (the loader memoises its parse per carrier key)
+
+HISTORY_TEXTS = [
+    "([1], [2])", "[1, 2], [3]", "({'k': [1]}, 'x')", "[[1], [2]]", '{"a": [1, 2]}', "[(1, [2])]", "{'a': ([1],)}",
+    "[1], {'a': [2]}", "([],)", "[[]]", "{'a': {'b': []}}", "[{1, 2}]", "({1},)", '[{"a": [1]}, {"b": {}}]', "((([1],),),)",
+    "{'items': [1, [2]], 'meta': {'k': [3]}, 'pair': ([4], 5)}", '{"items": [[1]], "meta": {}}', "[1, 2]", "(1, 2)", "{}, []",
+]
+HISTORY_TYPES = ["list", "dict", "bare:tuple", "bare:set", "bare:typing.Sequence", "bare:typing.Iterable", "bare:abc.Collection",
+                 "bare:typing.Mapping", "bare:typing.Tuple", "tuple[list,list]", "tuple[list,...]", "list[list]", "list[dict]",
+                 "list[tuple]", "dict[str,list]", "Box", "Optional[list]", "list|str", "list[list[int]]", "dict[str,list[int]]"]
+
+
+def rand_nested(rng: random.Random, depth=0):
+    """Python-literal values with mutable containers at any depth, under tuples too"""
+    k = rng.random()
+    if depth >= 3 or k < 0.3:
+        return rng.choice([0, 1, -3, "a", "", "k k", None, True, 1.5, [], {}, ()])
+    n = rng.randint(0, 3)
+    if k < 0.55:
+        return [rand_nested(rng, depth + 1) for _ in range(n)]
+    if k < 0.8:
+        return tuple(rand_nested(rng, depth + 1) for _ in range(n))
+    if k < 0.95:
+        return {rng.choice(["a", "b", "items", "meta", "pair", "k"]): rand_nested(rng, depth + 1) for _ in range(n)}
+    return {rng.randint(0, 5) for _ in range(n)}
+
+
+def to_jsonable(v):
+    if isinstance(v, (list, tuple)):
+        return [to_jsonable(e) for e in v]
+    if isinstance(v, dict):
+        return {k: to_jsonable(e) for k, e in v.items()}
+    if isinstance(v, set):
+        return sorted(v)
+    return v
+
+
+def history_texts(rng: random.Random, n: int):
+    out = list(HISTORY_TEXTS)
+    for _ in range(n):
+        v = rand_nested(rng)
+        forms = [repr(v)]
+        if isinstance(v, (list, tuple)) and len(v) >= 2:
+            forms.append(repr(v)[1:-1])                      # the comma form: "[1, 2], [3]"
+        if isinstance(v, list):
+            forms.append(repr(tuple(v)))
+        forms.append(stdjson.dumps(to_jsonable(v)))
+        out.append(rng.choice(forms))
+    return list(dict.fromkeys(out))
+
+
+def deep_mutate(x, depth=0) -> int:
+    """edit every mutable container reachable from x, as the owner of a freshly unmarshalled value may;
+    returns the number of edits"""
+    if depth > 12:
+        return 0
+    n = 0
+    if isinstance(x, list):
+        for e in list(x):
+            n += deep_mutate(e, depth + 1)
+        x.append("<edited>")
+        return n + 1
+    if isinstance(x, dict):
+        for e in list(x.values()):
+            n += deep_mutate(e, depth + 1)
+        x["<edited>"] = True
+        return n + 1
+    if isinstance(x, set):
+        x.add("<edited>")
+        return 1
+    if isinstance(x, collections.deque):
+        for e in list(x):
+            n += deep_mutate(e, depth + 1)
+        x.append("<edited>")
+        return n + 1
+    if isinstance(x, (tuple, frozenset)):
+        for e in x:
+            n += deep_mutate(e, depth + 1)
+        return n
+    if dataclasses.is_dataclass(x) and not isinstance(x, type):
+        for f in dataclasses.fields(x):
+            n += deep_mutate(getattr(x, f.name, None), depth + 1)
+    return n
+
+
+def history_reader(tname, specs):
+    from typelib import serdes, unmarshals
+    if tname == "serdes.load":
+        return serdes.load
+    if tname == "serdes.strload":
+        return serdes.strload
+    T = specs[tname]
+    return lambda x: unmarshals.unmarshal(T, x)
+
+
+def read_norm(read, x):
+    try:
+        return ("ok", norm(read(x)))
+    except BaseException as e:  # noqa: BLE001
+        if isinstance(e, (KeyboardInterrupt, SystemExit)):
+            raise
+        return ("err", exn_kind(e), repr(e)[:160])
+
+
+def check_history(tname, read, text: str, only=None):
+    """read text via carrier A, edit the result, read it again via every carrier B: each must equal a cold read"""
+    import copy
+    cars = carriers_of(("s", text))
+    impl.clear_caches()
+    cold = read_norm(read, mk(*cars[0]))
+    if cold[0] == "ok":
+        cold = ("ok", copy.deepcopy(cold[1]))
+    impl.clear_caches()
+    fails, edits = [], 0
+    for ka, pa in cars:
+        if only and ka != only[0]:
+            continue
+        impl.clear_caches()
+        first = read_norm(read, mk(ka, pa))
+        n = deep_mutate(first[1]) if first[0] == "ok" else 0
+        edits += n
+        if n == 0:
+            continue
+        for kb, pb in cars:
+            if only and kb != only[1]:
+                continue
+            again = read_norm(read, mk(kb, pb))
+            if not same_res(again, cold):
+                fails.append({"kind": "history", "type": tname, "s": text, "first": ka, "then": kb,
+                              "symptom": "after the caller edited its result, the same text no longer reads as a cold read does",
+                              "got": repr(again)[:200], "expected": repr(cold)[:200],
+                              "key": stdjson.dumps(["history", tname, ka == kb])})
+    impl.clear_caches()
+    return fails, edits
 
 
 def own_findings():
@@ -930,6 +1113,10 @@ def run_payload(p, specs=None):
         m = ast.literal_eval(p["m"])
         return [f for f in check_text_forms(p["type"], specs[p["type"]], m)
                 if f["form"] == p.get("form", f["form"]) and f["carrier"] == p.get("carrier", f["carrier"])]
+    if p["kind"] == "history":
+        fs, _ = check_history(p["type"], history_reader(p["type"], specs), p["s"],
+                              only=(p["first"], p["then"]) if "first" in p and "then" in p else None)
+        return fs
     if p["kind"] == "load":
         s = p["s"] if "s" in p else (p["repeat"][0] * p["repeat"][1] + p["repeat"][2])
         return [f for f in check_load_clauses(s, "s")
@@ -943,7 +1130,7 @@ def search(run: lib.Run, broken):
     rng = random.Random(run.seed + 14)
     specs = type_specs()
     fails = []
-    n = {"carriers": 0, "text_forms": 0, "load": 0, "corpus": 0}
+    n = {"carriers": 0, "text_forms": 0, "load": 0, "corpus": 0, "histories": 0, "history_edits": 0}
     # corpus first
     for p in corpus():
         n["corpus"] += 1
@@ -972,6 +1159,13 @@ def search(run: lib.Run, broken):
     for s in strings + DEEP + ["~" * 3000 + "1"]:
         n["load"] += 1
         fails += check_load_clauses(s, "s")
+    # (d) carriers after history
+    for text in history_texts(rng, 200 if hard else 25):
+        for tname in ["serdes.load", "serdes.strload"] + HISTORY_TYPES:
+            fs, edits = check_history(tname, history_reader(tname, specs), text)
+            n["histories"] += 1
+            n["history_edits"] += edits
+            fails += fs
     from typelib import serdes
     for x in NONTEXT + [object(), 1 + 2j, datetime.date(2020, 1, 2), Point(1)]:
         n["load"] += 1
@@ -1004,11 +1198,14 @@ def search(run: lib.Run, broken):
                 keep.append(f)
         out = keep
     run.search_stats["oracle"] = {
-        "evaluations": n["carriers"] * 5 + n["text_forms"] * 15 + n["load"] * 10, "distinct_nontrivial": n["carriers"] + n["text_forms"] + n["load"],
+        "evaluations": n["carriers"] * 5 + n["text_forms"] * 15 + n["load"] * 10 + n["histories"] * 31, "distinct_nontrivial": n["carriers"] + n["text_forms"] + n["load"],
         "types": len(specs), "strings": len(strings), **n, "failures": len(fails), "hard": hard,
         "rule": "for every T of the sample and every string: 5 carriers pairwise equal or all reject; for container/structured T "
                 "and wire values m: unmarshal(T, json.dumps(m) / repr(m) in each carrier) == unmarshal(T, m); load/strload: JSON text "
-                "-> decoder's answer, text that neither JSON decoder nor literal_eval accepts -> unchanged str, non-text -> same object",
+                "-> decoder's answer, text that neither JSON decoder nor literal_eval accepts -> unchanged str, non-text -> same object; "
+                "carriers after history: read a text via carrier A, edit every mutable container of the result, read the same text "
+                "via each carrier B: equal to a cold read (texts: nested Python-literal / JSON values incl. tuples holding lists and "
+                "comma forms; readers: load, strload and pass-through targets)",
     }
     if out:
         run.samples.append({"oracle_failure": out[0]})
